@@ -641,6 +641,14 @@ impl<'a> VariableParserExtension<'a> {
     ) -> Result<HashMapVariable, ParsingError> {
         let height = val.assume_field_as_scalar_number("height")?;
         let ptr = val.assume_field_as_pointer("pointer")?;
+        // the bytes may be anything (uninitialised or corrupted memory, cyclic node pointers):
+        // a tree that fits into an address space is never this high, and a walk must end after
+        // `length` pairs at the latest
+        const MAX_HEIGHT: i64 = 64;
+        if !(0..=MAX_HEIGHT).contains(&height) {
+            return Err(IncompleteInterp("BTreeMap").into());
+        }
+        let length = guard_len(val.assume_field_as_scalar_number("length")?).max(0) as usize;
 
         let k_type = type_params
             .get("K")
@@ -661,6 +669,7 @@ impl<'a> VariableParserExtension<'a> {
         )?;
         let iterator = reflection.iter(pcx.evcx)?;
         let kv_items = iterator
+            .take(length)
             .map_err(ParsingError::from)
             .filter_map(|(k, v)| {
                 let Some(key) = self.parser.parse_inner(pcx, Some(k), k_type) else {
